@@ -82,6 +82,8 @@ pub struct CaseOut {
     pub n_diags: usize,
     pub kinds: u128,                 // bitset of token kinds seen (kinds < 128)
     pub fwd_parents: usize,
+    pub lower_panics: usize,
+    pub n_lower_diags: usize,
 }
 
 /// direct oracles on the token stream
@@ -225,6 +227,61 @@ pub fn run_case(input: &str, with_tree: bool) -> CaseOut {
             if u32::from(r.end()) > len {
                 out.failures.push(("diag-range-outside-text".into(), format!("{:?} has range {:?}, text 0..{}", m, r, len)));
                 break;
+            }
+        }
+    }
+    // line:column rendering of every parser diagnostic (error.rs) agrees with the byte offset
+    match catch_unwind(AssertUnwindSafe(|| res.format_errors(input))) {
+        Err(p) => out.failures.push(("format-errors-panic".into(), util::panic_message(p))),
+        Ok(lines) => {
+            if lines.len() != diags.len() {
+                out.failures.push(("format-errors-count".into(), format!("{} diagnostics, {} formatted lines", diags.len(), lines.len())));
+            } else {
+                for ((m, r), l) in diags.iter().zip(lines.iter()) {
+                    let want = match r {
+                        None => m.clone(),
+                        Some(r) => {
+                            let st = u32::from(r.start()) as usize;
+                            let before = &input.as_bytes()[..st.min(input.len())];
+                            let line = before.iter().filter(|&&b| b == b'\n').count() + 1;
+                            let col = st - before.iter().rposition(|&b| b == b'\n').map(|p| p + 1).unwrap_or(0) + 1;
+                            format!("{}:{}: {}", line, col, m)
+                        }
+                    };
+                    if *l != want {
+                        out.failures.push(("diag-line-col-wrong".into(), format!("formatted {:?}, expected {:?}", l, want)));
+                        break;
+                    }
+                }
+            }
+        }
+    }
+    // positions attached by the next stage (CST -> AST lowering) come from syntax nodes: inside the text
+    // (a panic in lowering is C04's subject; it is only counted here)
+    if with_tree {
+        use cst::cst::CstNode;
+        let g2 = green.clone();
+        let lowered = catch_unwind(AssertUnwindSafe(|| {
+            let root = parser::syntax::MySyntaxNode::new_root(g2);
+            cst::cst::File::cast(root).map(|f| ::ast::lower::lower(f).into_parts().1)
+        }));
+        match lowered {
+            Err(_) => out.lower_panics += 1,
+            Ok(None) => out.failures.push(("root-not-a-file".into(), "the root node cannot be cast to cst::File".into())),
+            Ok(Some(ds)) => {
+                for d in ds.iter() {
+                    out.n_lower_diags += 1;
+                    if let Some(r) = d.range() {
+                        let (a, b) = (u32::from(r.start()) as usize, u32::from(r.end()) as usize);
+                        if b > input.len() || !input.is_char_boundary(a) || !input.is_char_boundary(b) {
+                            out.failures.push((
+                                "lower-diag-range-outside-text".into(),
+                                format!("{:?} has range {:?}, text 0..{}", d.message(), r, len),
+                            ));
+                            break;
+                        }
+                    }
+                }
             }
         }
     }
@@ -459,6 +516,9 @@ pub fn build_jobs(args: &util::Args) -> Vec<Job> {
     let thorough = args.tier == "thorough";
     let mut jobs = Vec::new();
     let mut seen = HashSet::new();
+    if args.rest.iter().any(|a| a == "--only-deep") {
+        return jobs;
+    }
     if let Some(i) = args.rest.iter().position(|a| a == "--hex") {
         // replay of a single input
         let bytes: Vec<u8> = (0..args.rest[i + 1].len() / 2)
@@ -503,7 +563,170 @@ pub fn build_jobs(args: &util::Args) -> Vec<Job> {
     jobs
 }
 
+/// deeply nested inputs; each is run in a child process on a default-size main-thread stack,
+/// because a stack overflow aborts the process and cannot be caught
+pub fn deep_inputs(thorough: bool) -> Vec<(String, String)> {
+    let depths: &[usize] = if thorough { &[200, 1000, 3000, 10000, 30000, 100000] } else { &[1000, 10000, 100000] };
+    let mut v = Vec::new();
+    for &d in depths {
+        // build_tree is quadratic in the nesting depth for some shapes (1.8 s at 10^4 for nested type
+        // applications); the largest depth is only run for shapes that answer quickly
+        let big = d >= 100000;
+        v.push((format!("paren{}", d), format!("fn main() -> unit {{ let x = {}1{}; () }}", "(".repeat(d), ")".repeat(d))));
+        v.push((format!("bang{}", d), format!("fn main() -> bool {{ {}true }}", "!".repeat(d))));
+        v.push((format!("binary{}", d), format!("fn main() -> int32 {{ 1{} }}", " + 1".repeat(d))));
+        if big && !thorough {
+            continue;
+        }
+        v.push((format!("block{}", d), format!("fn main() -> unit {}(){}", "{".repeat(d), "}".repeat(d))));
+        v.push((format!("open-paren{}", d), format!("fn main() -> unit {{ let x = {}1", "(".repeat(d))));
+        v.push((format!("minus{}", d), format!("fn main() -> int32 {{ {}1 }}", "-".repeat(d))));
+        v.push((format!("pattern{}", d), format!("fn f(x: int32) -> unit {{ match x {{ {}y{} => () }} }}", "(".repeat(d), ",)".repeat(d))));
+        v.push((format!("closure{}", d), format!("fn main() -> unit {{ let f = {}1; () }}", "|x| ".repeat(d))));
+        v.push((format!("if{}", d), format!("fn main() -> int32 {{ {}0{} }}", "if true { 1 } else { ".repeat(d), " }".repeat(d))));
+        if big {
+            continue;
+        }
+        v.push((format!("bracket{}", d), format!("fn main() -> unit {{ let x = {}1{}; () }}", "[".repeat(d), "]".repeat(d))));
+        v.push((format!("type{}", d), format!("fn f(x: {}int32{}) -> unit {{ () }}", "Vec[".repeat(d), "]".repeat(d))));
+        v.push((format!("call{}", d), format!("fn main() -> int32 {{ f{} }}", "(0)".repeat(d))));
+    }
+    v
+}
+
+/// child mode: one input on the plain main thread
+fn main_thread_child(args: &util::Args) {
+    let i = args.rest.iter().position(|a| a == "--deep").unwrap();
+    let name = &args.rest[i + 1];
+    let thorough = args.tier == "thorough";
+    let mut all = deep_inputs(thorough);
+    all.extend(deep_inputs(!thorough));
+    let text = all.into_iter().find(|(n, _)| n == name).map(|(_, t)| t).unwrap_or_default();
+    if std::env::var("GV_C12_TIMING").is_ok() {
+        let t = Instant::now();
+        let toks = lexer::lex(&text);
+        eprintln!("lex {:?}", t.elapsed());
+        let t = Instant::now();
+        let mut p = parser::parser::Parser::new(Path::new("x.gom"), toks);
+        parser::file::file(&mut p);
+        eprintln!("file {:?} events {}", t.elapsed(), p.events.len());
+        let t = Instant::now();
+        let r = p.build_tree();
+        eprintln!("build_tree {:?}", t.elapsed());
+        let t = Instant::now();
+        let root = parser::syntax::MySyntaxNode::new_root(r.green_node.clone());
+        let s2 = root.text().to_string();
+        eprintln!("text {:?} {}", t.elapsed(), s2.len());
+        let t = Instant::now();
+        let mut k = 0usize;
+        for el in root.descendants_with_tokens() {
+            k += u32::from(el.text_range().end()) as usize;
+        }
+        eprintln!("ranges {:?} {}", t.elapsed(), k);
+    }
+    let o = run_case(&text, false);
+    for (k, d) in &o.failures {
+        println!("FAIL\t{}\t{}", k, crate::sexp::esc_line(d));
+    }
+    println!("DONE\t{}", o.n_tokens);
+}
+
+const DEEP_TIMEOUT_SECS: u64 = 150;
+
+/// run one child with a time limit; `None` = could not spawn or timed out (slow, not judged)
+fn run_child(exe: &Path, tier: &str, name: &str) -> Option<std::process::Output> {
+    use std::process::{Command, Stdio};
+    let mut ch = Command::new(exe)
+        .args(["c12", "--tier", tier, "--deep", name])
+        .stdout(Stdio::piped())
+        .stderr(Stdio::piped())
+        .spawn()
+        .ok()?;
+    let t = Instant::now();
+    loop {
+        match ch.try_wait() {
+            Ok(Some(_)) => return ch.wait_with_output().ok(),
+            Ok(None) => {
+                if t.elapsed().as_secs() > DEEP_TIMEOUT_SECS {
+                    let _ = ch.kill();
+                    let _ = ch.wait();
+                    return None;
+                }
+                std::thread::sleep(Duration::from_millis(20));
+            }
+            Err(_) => return None,
+        }
+    }
+}
+
+/// parent: returns oracle lines for inputs whose child died or reported failures
+fn run_deep(args: &util::Args, oracle: &mut String) -> (usize, usize, usize) {
+    let exe = std::env::current_exe().expect("current_exe");
+    let thorough = args.tier == "thorough";
+    let mut inputs = deep_inputs(thorough);
+    if let Some(i) = args.rest.iter().position(|a| a == "--only-deep") {
+        let want = args.rest[i + 1].clone();
+        // a replay names the input; it may come from the other tier's list
+        let mut all = deep_inputs(true);
+        all.extend(deep_inputs(false));
+        inputs = all.into_iter().filter(|(n, _)| *n == want).take(1).collect();
+    }
+    let n = inputs.len();
+    let mut crashed = 0;
+    let mut slow = 0;
+    let results: Vec<(String, Option<std::process::Output>)> = std::thread::scope(|sc| {
+        let hs: Vec<_> = inputs
+            .iter()
+            .map(|(name, _)| {
+                let exe = exe.clone();
+                let tier = args.tier.clone();
+                sc.spawn(move || {
+                    let o = run_child(&exe, &tier, name);
+                    (name.clone(), o)
+                })
+            })
+            .collect();
+        hs.into_iter().map(|h| h.join().unwrap()).collect()
+    });
+    for (name, o) in results {
+        let text = &inputs.iter().find(|(n, _)| *n == name).unwrap().1;
+        let shape = name.trim_end_matches(|c: char| c.is_ascii_digit()).to_string();
+        let sample: String = text.chars().take(60).collect();
+        match o {
+            None => {
+                slow += 1;
+            }
+            Some(o) => {
+                let out = String::from_utf8_lossy(&o.stdout).to_string();
+                let err = String::from_utf8_lossy(&o.stderr).to_string();
+                if !out.contains("DONE\t") {
+                    crashed += 1;
+                    let why = if err.contains("overflowed its stack") { "stack overflow" } else { "child died" };
+                    let _ = writeln!(
+                        oracle,
+                        "deep-{}\tdeep\tdeep-nesting-crash\t{}: {} ({} bytes, starts {:?}); status {:?}\t{}",
+                        name, shape, why, text.len(), sample, o.status.code(), format!("deep:{}", name)
+                    );
+                }
+                for l in out.lines() {
+                    if let Some(rest) = l.strip_prefix("FAIL\t") {
+                        let mut it = rest.splitn(2, '\t');
+                        let k = it.next().unwrap_or("?");
+                        let d = it.next().unwrap_or("");
+                        let _ = writeln!(oracle, "deep-{}\tdeep\t{}\t{}\tdeep:{}", name, k, d, name);
+                    }
+                }
+            }
+        }
+    }
+    (n, crashed, slow)
+}
+
 pub fn main(args: &util::Args) {
+    if args.rest.iter().any(|a| a == "--deep") {
+        main_thread_child(args);
+        return;
+    }
     util::quiet_panics();
     let jobs = Arc::new(build_jobs(args));
     let n = jobs.len();
@@ -611,6 +834,8 @@ pub fn main(args: &util::Args) {
         *stats.entry("events".into()).or_default() += r.n_events as u64;
         *stats.entry("diagnostics".into()).or_default() += r.n_diags as u64;
         *stats.entry("forward_parents".into()).or_default() += r.fwd_parents as u64;
+        *stats.entry("lowering_diagnostics_checked".into()).or_default() += r.n_lower_diags as u64;
+        *stats.entry("lowering_panics_not_judged_here".into()).or_default() += r.lower_panics as u64;
         if r.n_error_tokens > 0 {
             *stats.entry("inputs_with_error_token".into()).or_default() += 1;
         }
@@ -636,6 +861,12 @@ pub fn main(args: &util::Args) {
         for (k, d) in &r.failures {
             let _ = writeln!(oracle, "{}\t{}\t{}\t{}\t{}", job.id, job.stream, k, crate::sexp::esc_line(d), hexs(&job.text));
         }
+    }
+    if !args.rest.iter().any(|a| a == "--hex") {
+        let (nd, crashed, slow) = run_deep(args, &mut oracle);
+        stats.insert("deep_nesting_inputs".into(), nd as u64);
+        stats.insert("deep_nesting_crashes".into(), crashed as u64);
+        stats.insert("deep_nesting_timeouts_not_judged".into(), slow as u64);
     }
     stats.insert("jobs".into(), n as u64);
     stats.insert("distinct_token_kinds_seen".into(), kinds.count_ones() as u64);
